@@ -233,6 +233,19 @@ func taskBody(env *taskEnv, t *TaskScn) func() string {
 			err := formatBlocks(w, env.shared)
 			return fmt.Sprintf("err=%v\n%s", err, sw.Buf)
 		}
+	case "gc":
+		// not a library call at all: the garbage collector runs (three times)
+		// at whatever instants the switch list gives this task its turns -
+		// pools are emptied and finalizers run in the middle of the other
+		// tasks' parses and renders
+		return func() string {
+			for i := 0; i < 3; i++ {
+				simrt.Yield(siteGC)
+				runtime.GC()
+				simrt.Yield(siteGC)
+			}
+			return "gc"
+		}
 	case "inspect":
 		// a reader of the shared tree: walks it and reads every node through
 		// every public accessor, as a caller's own renderer or linter would
